@@ -17,6 +17,14 @@ Definition write_at (f : bytes) (off : N) (data : bytes) : bytes :=
 Inductive dest := DSame | DOther (d : file).
 Record fs2 := mkfs { f_src : file; f_dst : dest }.
 
+(* the destination PATH as given by the caller.  The source file can be reached under another
+   string -- a symlink to it, a hard link, an unnormalised spelling (dir/./x.car), a relative
+   against an absolute one: the code never compares the strings, it opens both, so every such alias
+   is the same file and gets the in-place semantics *)
+Inductive dpath := PSame | PSymlink | PHardlink | PUnclean | PRelative | POther (d : file).
+Definition resolve_dest (p : dpath) : dest :=
+  match p with POther d => DOther d | _ => DSame end.
+
 Definition is_same (d : dest) : bool := match d with DSame => true | DOther _ => false end.
 Definition dst_content (s : fs2) : file :=
   match f_dst s with DSame => f_src s | DOther d => d end.
@@ -232,6 +240,86 @@ Section Oracles.
     end.
 End Oracles.
 
+(* ---- AttachIndex(path, idx, offset) ---------------------------------------------------------- *)
+(* As found, the file is opened with O_APPEND and written through WriteAt, which the os package
+   refuses ("invalid use of WriteAt on file opened with O_APPEND"): the call fails for EVERY input,
+   after O_CREATE has created an absent file (empty). *)
+Definition attach_index_as_found (f : file) (i : index) (off : N) : res unit * file :=
+  (Err EOther, Some (match f with Some a => a | None => [] end)).
+(* Repaired (notes/fixes/C10-attachindex-append.patch: O_APPEND dropped): OpenFile(O_CREATE|O_WRONLY),
+   an OffsetWriter at int64(offset), index.WriteTo.  A negative int64 offset is refused by WriteAt.
+   The CARv2 header is not updated (the code says so in a TODO). *)
+Definition attach_index (f : file) (i : index) (off : N) : res unit * file :=
+  let a := match f with Some a => a | None => [] end in
+  if two63 <=? off then (Err EOther, Some a)
+  else (Ok tt, Some (write_at a off (idx_write i))).
+
+(* ---- sequences of transforms on one file ------------------------------------------------------- *)
+(* the file a caller keeps transforming: WrapV1File into a fresh path (which then is "the file"),
+   ExtractV1File in place, ReplaceRootsInFile, AttachIndex.  A failed step leaves the file as the
+   step left it (for a failed wrap: the source, untouched). *)
+Inductive xop :=
+| OWrap (o : xopts)
+| OExtract (o : xopts)
+| OReplace (o : xopts) (roots : option (list bytes))
+| OAttach (i : index) (off : N).
+
+Section Seq.
+  Variable hdrdec : bytes -> option (list bytes * N).
+  Variable srt : list irec -> list irec.
+  Variable csz : N -> N.
+
+  Definition xstep (op : xop) (a : bytes) : xres * bytes :=
+    match op with
+    | OWrap o =>
+      match wrap_bytes_with hdrdec srt o a with
+      | Ok w => (XOk, w)
+      | Err e => (XErr e, a)
+      end
+    | OExtract o =>
+      let '(r, s') := extract_file hdrdec csz o (mkfs (Some a) DSame) in
+      (r, match f_src s' with Some b => b | None => [] end)
+    | OReplace o roots =>
+      let '(r, f) := replace_roots hdrdec o (Some a) roots in
+      (match r with Ok _ => XOk | Err e => XErr e end, match f with Some b => b | None => [] end)
+    | OAttach i off =>
+      let '(r, f) := attach_index (Some a) i off in
+      (match r with Ok _ => XOk | Err e => XErr e end, match f with Some b => b | None => [] end)
+    end.
+
+  Fixpoint xrun (ops : list xop) (a : bytes) : list xres * bytes :=
+    match ops with
+    | [] => ([], a)
+    | op :: t => let '(r, a1) := xstep op a in let '(rs, an) := xrun t a1 in (r :: rs, an)
+    end.
+
+  (* what a caller must respect for the payload to survive (executable): AttachIndex is told an
+     offset -- it has to lie at or after the end of the data payload of the CARv2 it is applied to;
+     and file sizes stay within int64 *)
+  Definition attach_guard (a : bytes) (off : N) : bool :=
+    match read_header hdrdec two63 a with
+    | Ok (_, v, rest, _) =>
+      if v =? 2 then
+        match read_v2hdr rest with
+        | Ok (h, _) => (h_doff h + h_dsize h <=? off) && (off <? two63)
+        | Err _ => false
+        end
+      else false
+    | Err _ => false
+    end.
+  Definition step_guard (op : xop) (a : bytes) : bool :=
+    match op with
+    | OWrap _ => blen a + 51 <? two63
+    | OAttach _ off => attach_guard a off
+    | _ => true
+    end.
+  Fixpoint seq_guard (ops : list xop) (a : bytes) : bool :=
+    match ops with
+    | [] => true
+    | op :: t => step_guard op a && seq_guard t (snd (xstep op a))
+    end.
+End Seq.
+
 (* ---- layer B ---------------------------------------------------------------------------- *)
 (* index records of a constructed payload: one per section whose CID is not identity (or every
    section with StoreIdentityCIDs), at the offset of the section's length varint *)
@@ -272,3 +360,21 @@ Definition v2hdr_accepted (h : v2hdr) : bool :=
 
 (* what extraction must leave at the destination *)
 Definition payload_window (h : v2hdr) (a : bytes) : bytes := take (h_dsize h) (drop (h_doff h) a).
+
+(* layer B for sequences: peel CARv2 containers until a CARv1 is reached; its section bytes *)
+Fixpoint innermost_sections (hdr : bytes -> option (list bytes * N)) (fuel : nat) (a : bytes) : option bytes :=
+  match fuel with
+  | O => None
+  | S f =>
+    match read_header hdr two63 a with
+    | Ok (_, v, rest, _) =>
+      if v =? 1 then Some rest
+      else if v =? 2 then
+        match read_v2hdr rest with
+        | Ok (h, _) => innermost_sections hdr f (payload_window h a)
+        | Err _ => None
+        end
+      else None
+    | Err _ => None
+    end
+  end.
